@@ -235,6 +235,9 @@ func seqCase(c *driver.Ctx, d *doc, pair [2]string, hist []op, hs string, crash 
 			c.Nontriv(driver.Hash("crash", key, fmt.Sprint(k)))
 		}
 		f := crashCheck(cpath, before, m)
+		if f == nil {
+			f = restartCheck(cpath, before, m, pair)
+		}
 		os.RemoveAll(cdir)
 		if f != nil {
 			f.Sig = fmt.Sprintf("crash before %s: %s", at, f.Sig)
@@ -259,6 +262,44 @@ func crashCheck(path string, before, after *model) *driver.Fail {
 		if st := statOf(path); st.exists && st.mode.Perm() != 0600 {
 			return &driver.Fail{Sig: "new config file in place without mode 0600", Detail: st.mode.String()}
 		}
+	}
+	return nil
+}
+
+// restartCheck: after the crash the application starts again (a new store on the same path, whatever the
+// killed save left lying around) and removes or stores one short credential: the file must then be the
+// complete document of the state found plus that one change - nothing of the interrupted save may show.
+func restartCheck(path string, before, after *model, pair [2]string) *driver.Fail {
+	found := after
+	if matchFile(before, path, nil) == nil {
+		found = before
+	}
+	m := found.clone()
+	var st *credentials.FileStore
+	var err error
+	if p := guard(func() { st, err = credentials.NewFileStore(path) }); p != "" || err != nil {
+		return &driver.Fail{Sig: "the config file left by the crash cannot be loaded", Detail: fmt.Sprint(p, err)}
+	}
+	ctx := context.Background()
+	// a change that makes the document shorter where possible: delete, then a put of a one-letter credential
+	for _, a := range []string{pair[0], pair[1]} {
+		if _, ok := m.auths[a]; ok {
+			m.del(a)
+			if err := st.Delete(ctx, a); err != nil {
+				return &driver.Fail{Sig: "after a restart: Delete fails", Detail: err.Error()}
+			}
+			break
+		}
+	}
+	small := cred{Username: "u", Password: "p"}
+	m.put(pair[0], small)
+	if err := st.Put(ctx, pair[0], small); err != nil {
+		return &driver.Fail{Sig: "after a restart: Put fails", Detail: err.Error()}
+	}
+	if mm := matchFile(m, path, nil); mm != nil {
+		b, _ := os.ReadFile(path)
+		return &driver.Fail{Sig: "after a restart: the saved file is not the complete new document (" + mm.clause + ")",
+			Detail: fmt.Sprintf("restarted on the files the crash left, Delete of an existing entry and Put(%s, u:p): %s\nfile: %q", pair[0], mm.detail, clip(string(b)))}
 	}
 	return nil
 }
